@@ -103,14 +103,32 @@ def ref_flow(vine):
             a, b = ref_inputs(e, vine.u_matrix)
             fam, theta = fam_of(e), float(e.theta)
             with np.errstate(all='ignore'):
-                hL = refs.hfunc(fam, theta, a, b)      # F(L | R, D)
+                hL = refs.hfunc(fam, theta, a, b)      # F(L | R, D), closed form
                 hR = refs.hfunc(fam, theta, b, a)      # F(R | L, D)
-            out.append({'edge': e, 'level': t.level, 'a': a, 'b': b, 'hL': hL, 'hR': hR})
+                c = _lib_copula(e)
+                lL = np.asarray(c.partial_derivative(np.column_stack([a, b])), dtype=float)
+                lR = np.asarray(c.partial_derivative(np.column_stack([b, a])), dtype=float)
+            try:
+                in_range = abs(refs.tau_of_theta(fam, theta)) <= 0.8
+            except Exception:
+                in_range = False
+            out.append({'edge': e, 'level': t.level, 'a': a, 'b': b, 'hL': hL, 'hR': hR,
+                        'libL': lL, 'libR': lR, 'closed_form_gates': in_range})
     return out
 
 
-def ref_loglik(vine, u):
-    """Independent recursion: sum over all edges of log c(F(L|D)(u), F(R|D)(u))."""
+def _lib_copula(edge):
+    from copulas.bivariate import Bivariate
+    c = Bivariate(copula_type=edge.name)
+    c.theta = edge.theta
+    return c
+
+
+def ref_loglik(vine, u, closed_form=False):
+    """Independent recursion: sum over all edges of log c(F(L|D)(u), F(R|D)(u)), the arguments
+    propagated by variable identity.  The pair-copula density and h-function are either the
+    library's own (a fresh copula object per edge - their correctness is C07's matter) or,
+    with closed_form=True, the closed forms of copsim.refs."""
     vals = {}
     total = 0.0
     for t in vine.trees:
@@ -127,11 +145,31 @@ def ref_loglik(vine, u):
                             b = vals[id(p)][var]
             fam, theta = fam_of(e), float(e.theta)
             with np.errstate(all='ignore'):
-                dens = float(refs.density(fam, theta, a, b))
-                vals[id(e)] = {e.L: float(refs.hfunc(fam, theta, a, b)),
-                               e.R: float(refs.hfunc(fam, theta, b, a))}
+                if closed_form:
+                    dens = float(refs.density(fam, theta, a, b))
+                    hL = float(refs.hfunc(fam, theta, a, b))
+                    hR = float(refs.hfunc(fam, theta, b, a))
+                else:
+                    c = _lib_copula(e)
+                    dens = float(np.sum(c.probability_density(np.array([[a, b]]))))
+                    hL = float(np.ravel(c.partial_derivative(np.array([[a, b]])))[0])
+                    hR = float(np.ravel(c.partial_derivative(np.array([[b, a]])))[0])
+            vals[id(e)] = {e.L: hL, e.R: hR}
             total += np.log(dens)
     return total
+
+
+def within_quantified_range(vine):
+    """True iff every edge copula has |tau(theta)| <= 0.8 - the range over which the closed
+    forms of the families are quantified (C06-C08) and inside which copsim.refs may gate."""
+    for t in vine.trees:
+        for e in t.edges:
+            try:
+                if abs(refs.tau_of_theta(fam_of(e), float(e.theta))) > 0.8:
+                    return False
+            except Exception:
+                return False
+    return True
 
 
 def left_parent_lacks_L(vine):
